@@ -5,9 +5,25 @@ HERE = os.path.dirname(os.path.dirname(os.path.abspath(__file__)))
 props = [json.loads(l) for l in open(os.path.join(HERE, 'properties.jsonl'))]
 
 # id -> (engine, technique, level text, level note, design ref)
+VEC_TECH = 'model-based property testing: proptest-generated operation histories (shrunk to a replay file) run against the real ObservableVector/adapters and a plain-Vec reference model, with transparent taps at every stage boundary'
+VEC_NOTE = 'Trusts the harness interpreter and its plain-Vec model (harness/src/engine_vec.rs), tokio broadcast semantics only through the one-directional lag rule, and the probe subscriber (a batched stream polled after every top-level operation) for message boundaries. Listed known-finding triggers are excluded by construction and counted in the evidence.'
+def V(text, ref): return ('vec', VEC_TECH, text, VEC_NOTE, ref)
 T = {
+ 'C05': V('Generated histories (all eleven mutators, entry ops, traversals, transactions, mid-history subscriptions, eager and bounded-lag polling, both stream flavours) are replayed into replicas that must equal a plain-Vec model after every operation; a direct call must yield exactly one diff, documented no-ops none; every subscriber must receive the same diffs per update as every other (poll-pattern independence, batched = concatenation). 300k histories quick / 4M thorough.', 'DESIGN.md section 5, C05'),
+ 'C06': V('Histories with unconstrained lag over capacities 1..64 and 1-4 subscribers: an exact mirror of each receiver counts undelivered updates, so every Reset is checked against "more than capacity pending" and against the current contents; replica == contents at every Pending; every diff applicable; every batched item brings the replica up to date.', 'DESIGN.md section 5, C06'),
+ 'C07': V('Transaction bodies (0-6 ops incl. clear, rollback, entries, out-of-range) ended by commit or drop at arbitrary points; working-copy model compared through the handle after each op; abandoned transactions must leave contents and all subscribers untouched; commits publish one non-empty unit; batched replicas must only pass through top-level states.', 'DESIGN.md section 5, C07'),
+ 'C08': V('Histories ending with the vector dropped while subscribers are up to date, behind, lagged beyond capacity, mid-batch or never polled (both flavours): no end while alive, pending items then end, final replica == final contents, pending waker woken by the drop.', 'DESIGN.md section 5, C08'),
+ 'C09': V('Single-stage Head/Tail/Skip in all nine variants, both flavours and both limit sources, limits 0..len+3 interleaved with source operations, lag Resets, transactions and drops: view == first/last/rest of the model at every Pending (per batch for batched), every diff applicable, end-of-stream parity. 1M histories quick / 20M thorough. K1 excluded exactly and replayed.', 'DESIGN.md section 5, C09'),
+ 'C10': V('Single-stage Filter/FilterMap over all 256 pass/fail masks of an 8-value alphabet: view == filtered (mapped) model at every Pending, applicability, end parity.', 'DESIGN.md section 5, C10'),
+ 'C11': V('Single-stage Sort/SortBy/SortByKey with tie-rich comparators and identity-tagged elements: view must be an identity-exact permutation of the model and ordered; applicability; end parity. Non-benign Truncate (K2) excluded exactly and replayed.', 'DESIGN.md section 5, C11'),
+ 'C12': V('Chains of 2-3 stages drawn from all 14 stage kinds (dynamic ones chained through VectorObserver::into_parts), taps at every boundary, stage-local oracle view_i == view(stage_i, replica_{i-1}) from the initial values on.', 'DESIGN.md section 5, C12'),
+ 'C13': V('Batched pipelines of 0-3 stages with multi-op transactions: no empty batch at any boundary, after each emitted batch every stage is a correct view and the source replica is a recorded top-level state, and (fixed parameters) the flattened batched output equals an unbatched twin\'s output.', 'DESIGN.md section 5, C13'),
+ 'C14': V('Every stream kind with a fresh flag-waker per poll: a poll may return an item or the end after a Pending poll only if that poll\'s waker was woken (source op, limit change, drops); polls interleaved after single operations.', 'DESIGN.md section 5, C14'),
+ 'C15': V('Static Head/Tail alone and inside chains: the rebuilt view length is checked against the limit after every individual diff (inside batches too) and on the initial values.', 'DESIGN.md section 5, C15'),
+ 'C17': V('Mutators incl. explicit out-of-range calls (must panic, contents and subscribers untouched) and for_each/entries traversals with per-visit decisions keep/set/remove/set-then-remove/stop, directly and inside transactions: return values, contents and visit logs must equal a plain Vec simulation.', 'DESIGN.md section 5, C17'),
+ 'C20': V('The C05-C13 history generators run with an instrumented element type (fresh serial per construction and clone, registry of live/dead): double drop, use after drop or any instance alive after everything was dropped is a violation.', 'DESIGN.md section 5, C20'),
  'C18': ('pure', 'property-based testing: bounded-exhaustive enumeration + proptest random generation against a reference implementation and the commutation law',
-         'Every (vector, diff, mapping) triple up to length 4 over 3 values is enumerated (complete small scope, all index positions incl. beyond the end) and 200k (quick) / 4M (thorough) random triples with vectors up to 200 items are checked against a plain-Vec reference, the map/apply commutation law and the exact panic contract. Exploration: absence is shown only inside the enumerated scope.',
+         'Every (vector, diff, mapping) triple up to length 4 over 3 values is enumerated (complete small scope, all index positions incl. beyond the end) and 1M (quick) / 4M (thorough) random triples with vectors up to 200 items are checked against a plain-Vec reference, the map/apply commutation law and the exact panic contract. Exploration: absence is shown only inside the enumerated scope.',
          'Trusts the harness reference semantics of the eleven diff kinds (40 lines) and catch_unwind for the panic contract.', 'DESIGN.md section 5, C18'),
 }
 CLAIMED = sorted(T)
@@ -40,6 +56,7 @@ m = {
    'add_only': True,
  },
  'engines': [
+   {'name': 'vec', 'path': 'harness/src/engine_vec.rs', 'serves_properties': ['C05','C06','C07','C08','C09','C10','C11','C12','C13','C14','C15','C17','C20'], 'kind_free_text': 'proptest state-machine style: generated VecCase histories interpreted against the real library and a plain-Vec model; taps at every adapter boundary; known-finding triggers excluded exactly'},
    {'name': 'pure', 'path': 'harness/src/engine_pure.rs', 'serves_properties': ['C18'], 'kind_free_text': 'proptest + bounded-exhaustive enumeration of (vector, diff, mapping) triples against a plain-Vec reference'},
  ],
  'checks': checks,
